@@ -19,7 +19,9 @@ import (
 
 	"verifharness/gen"
 	"verifharness/hx"
+	"verifharness/ref/rder"
 	"verifharness/ref/rsm2"
+	"verifharness/ref/rsm3"
 	"verifharness/sm2x"
 )
 
@@ -60,6 +62,7 @@ type spec struct {
 	critExt   bool
 	ski       bool
 	aki       string
+	v1        bool // re-encoded as an X.509 v1 certificate (no version field, no extensions)
 	cert      *gx.Certificate
 }
 
@@ -132,7 +135,13 @@ func build(t *rapid.T, p *pki) {
 			}
 		}
 		if s.critExt {
-			tpl.ExtraExtensions = []pkix.Extension{{Id: asn1.ObjectIdentifier{1, 2, 3, 4, 5, 99}, Critical: true, Value: []byte{5, 0}}}
+			// an extension no verifier here interprets, marked critical: a private OID, or a standard one from the
+			// id-ce arc that this parser has no case for (policyConstraints, inhibitAnyPolicy, policyMappings,
+			// subjectDirectoryAttributes, freshestCRL)
+			oids := []asn1.ObjectIdentifier{{1, 2, 3, 4, 5, 99}, {2, 5, 29, 36}, {2, 5, 29, 54}, {2, 5, 29, 33}, {2, 5, 29, 9}, {2, 5, 29, 46}}
+			vals := [][]byte{{5, 0}, {0x30, 0x03, 0x80, 0x01, 0x00}, {2, 1, 0}, {0x30, 0x00}, {0x30, 0x00}, {0x30, 0x00}}
+			k := gen.Uniform(t, "critoid", len(oids))
+			tpl.ExtraExtensions = []pkix.Extension{{Id: oids[k], Critical: true, Value: vals[k]}}
 		}
 		parent := &gx.Certificate{Subject: nameOf(s.issuer)}
 		if p.useSKI {
@@ -160,6 +169,9 @@ func build(t *rapid.T, p *pki) {
 		if err != nil {
 			t.Fatalf("harness: CreateCertificate(%v): %v", s, err)
 		}
+		if s.v1 {
+			der = asV1(t, der, signKey.D)
+		}
 		c, err := gx.ParseCertificate(der)
 		if err != nil {
 			if s.critExt {
@@ -172,6 +184,48 @@ func build(t *rapid.T, p *pki) {
 }
 
 // ---- generator
+
+// asV1 rebuilds a certificate made by the library as an X.509 version-1 certificate: the [0] version and [3] extensions
+// members of the TBSCertificate are dropped and the result is signed again (SM2-SM3, default user ID) with the issuer key.
+func asV1(t *rapid.T, der []byte, signerD *big.Int) []byte {
+	tl := rder.Walk(der)
+	if len(tl) < 3 || tl[0].Tag != 0x30 || tl[1].Tag != 0x30 {
+		t.Fatalf("harness: unexpected certificate structure")
+	}
+	tbs := tl[1]
+	var body []byte
+	off := tbs.Start + tbs.HdrLen
+	end := off + tbs.Len
+	for off < end {
+		kid := rder.Walk(der[off:end])
+		if len(kid) == 0 {
+			t.Fatalf("harness: cannot walk TBSCertificate")
+		}
+		k := kid[0]
+		if k.Tag != 0xa0 && k.Tag != 0xa3 {
+			body = append(body, der[off:off+k.HdrLen+k.Len]...)
+		}
+		off += k.HdrLen + k.Len
+	}
+	newTBS := append(rder.EncLen(0x30, len(body)), body...)
+	// signatureAlgorithm: the sequence that follows the TBS in the original
+	sa := der[tbs.Start+tbs.HdrLen+tbs.Len:]
+	saTL := rder.Walk(sa)[0]
+	sigAlg := sa[:saTL.HdrLen+saTL.Len]
+	e, _ := cv.E(cv.BaseMul(signerD), rsm2.DefaultUID, newTBS)
+	nonce := new(big.Int).SetBytes(rsm3sum(newTBS))
+	nonce.Mod(nonce, new(big.Int).Sub(cv.N, big.NewInt(2))).Add(nonce, big.NewInt(1))
+	r, s2, ok := cv.SignE(signerD, e, nonce)
+	if !ok {
+		t.Fatalf("harness: v1 re-signing needs another nonce")
+	}
+	sig := rder.EncSig(r, s2)
+	bits := append(rder.EncLen(0x03, len(sig)+1), 0)
+	bits = append(bits, sig...)
+	return rder.EncSeq(newTBS, sigAlg, bits)
+}
+
+func rsm3sum(b []byte) []byte { return rsm3.Sum(b) }
 
 func drawPKI(t *rapid.T) *pki {
 	p := &pki{useSKI: gen.OneIn(t, "ski", 3)}
@@ -196,6 +250,12 @@ func drawPKI(t *rapid.T) *pki {
 				s.isCA = false
 			case 1:
 				s.bcValid, s.isCA = false, false
+			case 2, 3:
+				if s.role == "inter" {
+					// a version-1 certificate issued by a CA: it has no basicConstraints and must not act as an issuer
+					s.bcValid, s.isCA, s.v1 = false, false, true
+					s.ku, s.permitted, s.ekus, s.maxPath = 0, nil, nil, -1
+				}
 			}
 		}
 		if gen.OneIn(t, "caeku", 12) {
@@ -309,8 +369,8 @@ func drawPKI(t *rapid.T) *pki {
 			if !gen.OneIn(t, "dropInter", 12) {
 				p.inters = append(p.inters, s)
 			}
-			if gen.OneIn(t, "interAsRoot", 12) {
-				p.roots = append(p.roots, s)
+			if gen.OneIn(t, "interAsRoot", 12) && !s.v1 {
+				p.roots = append(p.roots, s) // (a v1 trust anchor is outside the property: anchors are trusted as given)
 			}
 		case "leaf":
 			if gen.OneIn(t, "leafInRoots", 12) {
